@@ -197,6 +197,25 @@ def _is_builder_helper(fi, pname) -> bool:
 
 # --------------------------------------------------------------------------- R4c
 _AUTO = {}
+_ASSIGNS = {}
+
+
+def _class_assigns(prog, cls_q, seg) -> bool:
+    """some method visible from the class assigns self.<seg>"""
+    key = (cls_q, seg)
+    if key not in _ASSIGNS:
+        found = False
+        for q in prog.classes[cls_q].mro:
+            c = prog.classes.get(q)
+            if c is None:
+                continue
+            for m in c.methods.values():
+                for sub in ast.walk(m.node):
+                    if isinstance(sub, ast.Attribute) and sub.attr == seg and isinstance(sub.ctx, ast.Store) and \
+                            isinstance(sub.value, ast.Name) and sub.value.id == "self":
+                        found = True
+        _ASSIGNS[key] = found
+    return _ASSIGNS[key]
 
 
 def _auto_cache(eng, ev, l):
@@ -214,7 +233,11 @@ def _auto_cache(eng, ev, l):
             field = sub.attr
             break
     if field is None or field not in l[1]:
-        return None, ""
+        # written through a local alias (`memo = self._memo; memo[k] = v`): the field is the segment of the location
+        # that is an attribute of the frame's receiver class
+        field = next((seg for seg in l[1] if seg.startswith("_") and _class_assigns(eng.prog, cls_q, seg)), None)
+        if field is None:
+            return None, ""
     deps = set()
     if ev.value is not None:
         deps |= set(all_deps(ev.value))
